@@ -130,6 +130,20 @@ pub fn run(case: &str) -> String {
                 let want = format!("200,{},k", hex(format!("POST /all c={ci}&r=0 {}", hex(b"st")).as_bytes()));
                 return match read_one(&mut s, &mut rbuf) { Some(r) if r == want => Ok(()), other => Err(format!("conn {ci} (stalled): got {other:?}")) };
             }
+            // one client in five pipelines: 34..80 small requests in ONE write, then reads the answers - every one of them
+            // is complete and unanswered from the moment it arrives, whether the worker finds it in the socket or has read it
+            // ahead with an earlier one (round-6 seeds C14-k / C17-k: a job that gave the connection back with requests it
+            // had already taken out of the socket)
+            if !hog && rng.chance(1, 5) {
+                let k = rng.range(34, 80);
+                let mut all = Vec::new();
+                for j in 0..k { all.extend(format!("GET /none?c={ci}&p={j} HTTP/1.1\r\n\r\n").as_bytes()); }
+                s.write_all(&all).map_err(|_| "write")?;
+                for j in 0..k {
+                    let want = format!("200,{},k", hex(format!("GET /none c={ci}&p={j} {}", hex(b"")).as_bytes()));
+                    match read_one(&mut s, &mut rbuf) { Some(r) if r == want => {}, other => return Err(format!("conn {ci}: pipelined request {j} of {k} got {other:?}")) }
+                }
+            }
             for j in 0..nreq {
                 if rng.chance(1, 3) { std::thread::sleep(Duration::from_micros(rng.below(300))); }
                 let last = j + 1 == nreq;
@@ -301,7 +315,7 @@ pub fn run(case: &str) -> String {
 pub fn gen(ctx: &Ctx) {
     let mut rng = Rng::new(ctx.seed, "epoll");
     let mut out = Out::new(&ctx.dir, "epoll");
-    out.rule = "real serve_epoll executions: 1..4 workers, 1..8 concurrent lock-step clients with 1..5 requests each (requests sometimes split in two segments, random sub-millisecond pauses), a third of the clients eager \
+    out.rule = "real serve_epoll executions: 1..4 workers, 1..8 concurrent lock-step clients with 1..5 requests each (one client in five first pipelines 34..80 requests in one write) (requests sometimes split in two segments, random sub-millisecond pauses), a third of the clients eager \
                 (slow handlers that answer first and linger 2-12 ms, so the next request or the close arrives while the previous request is in flight), endings \
                 {client close or half-close, Connection: close, handler Err of kinds Other / WouldBlock / TimedOut / Interrupted, response with close, RST while the last request is in its handler, half a request head followed by the client's FIN}; every third run with >= 2 workers has workers-1 stalled clients (half a head until all others are done), 0..2 injected EPOLL_CTL_ADD failures; client connects staggered over 9 ms in two thirds of the runs and a setup hook that lingers 0 / 0.3 / 1.5 / 4 ms on the event-loop thread (so that \
                 connections are closed by workers while their events sit in the loop's batch: the loop-side reclamation path); every third run's setup hook hands back a clone of the accepted stream; every fourth run interrupts the loop's epoll_wait with signals; a burst run (one worker held 12 ms while 89 connections become ready); one run in six leaves the server alone for 1.3 s before the stop (records reclaimed by the loop itself), one in six keeps an idle keep-alive connection open across StopAccepting for 1.3 s and uses it afterwards; every client checks that its responses arrive in order and belong to its \
